@@ -6,6 +6,7 @@ import (
 	"strings"
 
 	"google.golang.org/protobuf/compiler/protogen"
+	"google.golang.org/protobuf/reflect/protoreflect"
 
 	"github.com/SebastienMelki/sebuf/http"
 	"github.com/SebastienMelki/sebuf/internal/annotations"
@@ -16,6 +17,10 @@ type Generator struct {
 	plugin       *protogen.Plugin
 	generateMock bool
 	globalUnwrap *GlobalUnwrapInfo // Global unwrap info collected from all files
+
+	// mockInProgress tracks the message types currently being expanded by the mock
+	// generator so that recursive types terminate.
+	mockInProgress map[protoreflect.FullName]bool
 }
 
 // Options configures the generator.
